@@ -19,7 +19,35 @@ let pev = function
 let pitem it =
   String.concat " " ([":i"; Printf.sprintf "%x" (List.length it.i_evs)] @ List.map pev it.i_evs
                      @ [(match it.i_ret with None -> "~" | Some (id, off) -> ":r " ^ pn id ^ " " ^ pn off); pbool it.i_warn])
+(* installed scenarios: 2 gop*  with gop ::= :a n | :s n | :d k n | :f k n | :cc | :ca | :gi | :go
+   (:s n = a SimpleString whose buffer has n bytes: the same request as :a n for the allocator)
+   observation = gitem*  with gitem ::= :j <nev> (:A id sz | :F id sz)* (~ | :r id off) <warn> <out> <dbl> *)
+let gop c =
+  match next c with
+  | ":a" | ":s" -> GAlloc (n_tok (next c))
+  | ":d" -> let k = nat_tok (next c) in GRel (k, n_tok (next c))
+  | ":f" -> let k = n_tok (next c) in GFor (k, n_tok (next c))
+  | ":cc" -> GClearCache
+  | ":ca" -> GClearAll
+  | ":gi" -> GPush
+  | ":go" -> GPop
+  | t -> raise (Bad ("gop " ^ t))
+let is_global ts = match ts with "2" :: _ -> true | _ -> false
+let gscenario ts =
+  let c = { rest = List.tl ts } in
+  let rec go acc = if at_end c then List.rev acc else go (gop c :: acc) in
+  go []
+let pgitem g =
+  let it = g.gi_it in
+  String.concat " " ([":j"; Printf.sprintf "%x" (List.length it.i_evs)] @ List.map pev it.i_evs
+                     @ [(match it.i_ret with None -> "~" | Some (id, off) -> ":r " ^ pn id ^ " " ^ pn off); pbool it.i_warn;
+                        pn g.gi_out; pn g.gi_dbl])
 let run_line ts =
+  if is_global ts then begin
+    let s = gscenario ts in
+    if not (gvalid s) then raise (Bad "installed scenario is not valid (see gvalid in coq/C18_ModelG.v)")
+    else String.concat " " (List.map pgitem (grun s))
+  end else
   let s = scenario ts in
   if not (valid s) then raise (Bad "scenario is not valid (a release names an alloc that has not happened yet)")
   else String.concat " " (List.map pitem (run s))
@@ -38,7 +66,26 @@ let item c =
             let w = bool_tok (next c) in
             { i_evs = evs; i_ret = ret; i_warn = w }
   | t -> raise (Bad ("item " ^ t))
+let gitem c =
+  match next c with
+  | ":j" -> let evs = counted c ev in
+            let ret = (match next c with
+                       | "~" -> None
+                       | ":r" -> let id = n_tok (next c) in Some (id, n_tok (next c))
+                       | t -> raise (Bad ("ret " ^ t))) in
+            let w = bool_tok (next c) in
+            let o = n_tok (next c) in
+            let d = n_tok (next c) in
+            { gi_it = { i_evs = evs; i_ret = ret; i_warn = w }; gi_out = o; gi_dbl = d }
+  | t -> raise (Bad ("gitem " ^ t))
 let spec_line ts os =
+  if is_global ts then begin
+    let s = gscenario ts in
+    if not (gvalid s) then true else
+    let c = { rest = os } in
+    let rec go acc = if at_end c then List.rev acc else go (gitem c :: acc) in
+    gspec s (go [])
+  end else
   let s = scenario ts in
   if not (valid s) then true (* not a scenario the property speaks about: not judged *) else
   let c = { rest = os } in
